@@ -18,6 +18,9 @@ CLAIMED = {
     "C02": ("exploration", "differential runtime monitor: parser/MIC/decrypt vs independent reference decoder on valid, bit-flipped, mutated, resized and random byte strings; buffer-before/after comparison",
             "Every byte string generated is fed to every receive-path entry point; classification, fields, MIC verdicts under several counters, plaintext, buffer preservation on error and decrypt involution are compared with the reference.",
             "Trusts the reference codec; Error variants are not compared, only accept/reject and values.", "6/C02"),
+    "C03": ("exploration", "runtime monitor: panic trap + iterator-contract oracle (own command length table) over exhaustive short inputs and mutated valid frames/streams; every public accessor called; Miri/ASan legs in thorough",
+            "All byte strings of length 0..3 (16.8 M) through all 12 entry points, every CID x every truncation point of all six command sets, every MHDR x length x FOptsLen, mutated valid frames and command streams, random strings up to 255 bytes; nested inputs (FOpts, decrypted payloads) fed back to the iterators.",
+            "Command length table transcribed from LoRaWAN 1.0.4 / TS009 / TS005; an Err at an offset where the table finds a whole command counts as a breach.", "6/C03"),
     "C05": ("exploration", "runtime monitor: exhaustive hook-level counter arithmetic vs the statement's rule + reference acceptance model over device sessions (reference codec decides every verdict)",
             "Counter reconstruction is compared for all 2^16 wire values per `last` around every boundary class; sessions created at chosen counters receive fresh/replayed/reordered/far-future/forged/oversized frames in RX1, RX2 and Class C gaps on both front-ends and after every transaction the remembered counter, response, delivered payloads and MAC answers are compared with the model.",
             "Trusts the reference codec; size-limit clause only exercised clearly within/beyond the limit; hook verif::next_fcnt_down is a thin wrapper of the private function.", "6/C05"),
@@ -51,6 +54,9 @@ CLAIMED = {
     "C17": ("exploration", "runtime monitor: SPI writes of the real drivers decoded with datasheet formulas (independent decoder) and compared with the request; exhaustive raw status sweeps",
             "Every 1 Hz of the LoRaWAN bands + stride over 137-1020 MHz (thorough: every 1 Hz), every power -128..127 and i32 extremes per PA path/variant/band, all 65536 symbol counts, adapter margins 0..1000 ms per (SF,BW), all 2^24 SX126x status triples and 2^16 SX127x pairs.",
             "Datasheet formulas; set-valued where datasheet gives two numbers (listed in evidence assumptions); LR11xx power only clamping/monotonic clauses.", "6/C17"),
+    "C19": ("exploration", "runtime monitor: independent per-field description (owned bits, admissible range, truncation rule, unit mapping) judges every set/build/parse round trip; text-form round trips; panic trap; Miri leg on the unsafe text code in thorough",
+            "Exhaustive values for every field up to 16 bits (three scenarios: fresh, other fields pre-set, override), boundaries + random for wider ones, all 2^16 DevNonces, 10^5 values for each of 18 identifier/key types, variable-length creators, 300k command sequences through build_mac_commands.",
+            "Field descriptions transcribed from LoRaWAN 1.0.4 / TS009 / TS005; set-valued where the statement allows refusal or truncation.", "6/C19"),
 }
 
 NOT_YET = "monitor not built yet in this revision (planned in DESIGN.md section 6)"
